@@ -46,12 +46,12 @@ Codec/Reader.vos Codec/Reader.vok Codec/Reader.required_vos: Codec/Reader.v
 Codec/ReaderProofs.vo Codec/ReaderProofs.glob Codec/ReaderProofs.v.beautified Codec/ReaderProofs.required_vo: Codec/ReaderProofs.v Codec/Reader.vo
 Codec/ReaderProofs.vio: Codec/ReaderProofs.v Codec/Reader.vio
 Codec/ReaderProofs.vos Codec/ReaderProofs.vok Codec/ReaderProofs.required_vos: Codec/ReaderProofs.v Codec/Reader.vos
-Codec/RulesShape.vo Codec/RulesShape.glob Codec/RulesShape.v.beautified Codec/RulesShape.required_vo: Codec/RulesShape.v Gen/CodecGen.vo Codec/Reader.vo Codec/Varint.vo Codec/Universe.vo
-Codec/RulesShape.vio: Codec/RulesShape.v Gen/CodecGen.vio Codec/Reader.vio Codec/Varint.vio Codec/Universe.vio
-Codec/RulesShape.vos Codec/RulesShape.vok Codec/RulesShape.required_vos: Codec/RulesShape.v Gen/CodecGen.vos Codec/Reader.vos Codec/Varint.vos Codec/Universe.vos
-Codec/RulesShapeProofs.vo Codec/RulesShapeProofs.glob Codec/RulesShapeProofs.v.beautified Codec/RulesShapeProofs.required_vo: Codec/RulesShapeProofs.v Gen/CodecGen.vo Codec/Reader.vo Codec/Varint.vo Codec/Universe.vo Codec/RulesShape.vo
-Codec/RulesShapeProofs.vio: Codec/RulesShapeProofs.v Gen/CodecGen.vio Codec/Reader.vio Codec/Varint.vio Codec/Universe.vio Codec/RulesShape.vio
-Codec/RulesShapeProofs.vos Codec/RulesShapeProofs.vok Codec/RulesShapeProofs.required_vos: Codec/RulesShapeProofs.v Gen/CodecGen.vos Codec/Reader.vos Codec/Varint.vos Codec/Universe.vos Codec/RulesShape.vos
+Codec/RulesShape.vo Codec/RulesShape.glob Codec/RulesShape.v.beautified Codec/RulesShape.required_vo: Codec/RulesShape.v Gen/CodecGen.vo Codec/Reader.vo Codec/Varint.vo Codec/Universe.vo Gen/RulesTyGen.vo
+Codec/RulesShape.vio: Codec/RulesShape.v Gen/CodecGen.vio Codec/Reader.vio Codec/Varint.vio Codec/Universe.vio Gen/RulesTyGen.vio
+Codec/RulesShape.vos Codec/RulesShape.vok Codec/RulesShape.required_vos: Codec/RulesShape.v Gen/CodecGen.vos Codec/Reader.vos Codec/Varint.vos Codec/Universe.vos Gen/RulesTyGen.vos
+Codec/RulesShapeProofs.vo Codec/RulesShapeProofs.glob Codec/RulesShapeProofs.v.beautified Codec/RulesShapeProofs.required_vo: Codec/RulesShapeProofs.v Gen/CodecGen.vo Gen/RulesTyGen.vo Codec/Reader.vo Codec/Varint.vo Codec/Universe.vo Codec/RulesShape.vo
+Codec/RulesShapeProofs.vio: Codec/RulesShapeProofs.v Gen/CodecGen.vio Gen/RulesTyGen.vio Codec/Reader.vio Codec/Varint.vio Codec/Universe.vio Codec/RulesShape.vio
+Codec/RulesShapeProofs.vos Codec/RulesShapeProofs.vok Codec/RulesShapeProofs.required_vos: Codec/RulesShapeProofs.v Gen/CodecGen.vos Gen/RulesTyGen.vos Codec/Reader.vos Codec/Varint.vos Codec/Universe.vos Codec/RulesShape.vos
 Codec/Universe.vo Codec/Universe.glob Codec/Universe.v.beautified Codec/Universe.required_vo: Codec/Universe.v Codec/Reader.vo Codec/Varint.vo
 Codec/Universe.vio: Codec/Universe.v Codec/Reader.vio Codec/Varint.vio
 Codec/Universe.vos Codec/Universe.vok Codec/Universe.required_vos: Codec/Universe.v Codec/Reader.vos Codec/Varint.vos
@@ -217,9 +217,9 @@ Fmt/Bubble.vos Fmt/Bubble.vok Fmt/Bubble.required_vos: Fmt/Bubble.v Fmt/Tokens.v
 Fmt/BubbleProofs.vo Fmt/BubbleProofs.glob Fmt/BubbleProofs.v.beautified Fmt/BubbleProofs.required_vo: Fmt/BubbleProofs.v Fmt/Tokens.vo Gen/FmtCats.vo Fmt/Processor.vo Fmt/ProcessorProofs.vo Fmt/Bubble.vo
 Fmt/BubbleProofs.vio: Fmt/BubbleProofs.v Fmt/Tokens.vio Gen/FmtCats.vio Fmt/Processor.vio Fmt/ProcessorProofs.vio Fmt/Bubble.vio
 Fmt/BubbleProofs.vos Fmt/BubbleProofs.vok Fmt/BubbleProofs.required_vos: Fmt/BubbleProofs.v Fmt/Tokens.vos Gen/FmtCats.vos Fmt/Processor.vos Fmt/ProcessorProofs.vos Fmt/Bubble.vos
-Fmt/FmtCheck.vo Fmt/FmtCheck.glob Fmt/FmtCheck.v.beautified Fmt/FmtCheck.required_vo: Fmt/FmtCheck.v Fmt/Tokens.vo Gen/FmtCats.vo Fmt/Processor.vo Fmt/Bubble.vo Fmt/Stages.vo
-Fmt/FmtCheck.vio: Fmt/FmtCheck.v Fmt/Tokens.vio Gen/FmtCats.vio Fmt/Processor.vio Fmt/Bubble.vio Fmt/Stages.vio
-Fmt/FmtCheck.vos Fmt/FmtCheck.vok Fmt/FmtCheck.required_vos: Fmt/FmtCheck.v Fmt/Tokens.vos Gen/FmtCats.vos Fmt/Processor.vos Fmt/Bubble.vos Fmt/Stages.vos
+Fmt/FmtCheck.vo Fmt/FmtCheck.glob Fmt/FmtCheck.v.beautified Fmt/FmtCheck.required_vo: Fmt/FmtCheck.v Fmt/Tokens.vo Gen/FmtCats.vo Fmt/Processor.vo Fmt/Bubble.vo Fmt/Stages.vo Fmt/Pipeline.vo Gen/FmtRules.vo
+Fmt/FmtCheck.vio: Fmt/FmtCheck.v Fmt/Tokens.vio Gen/FmtCats.vio Fmt/Processor.vio Fmt/Bubble.vio Fmt/Stages.vio Fmt/Pipeline.vio Gen/FmtRules.vio
+Fmt/FmtCheck.vos Fmt/FmtCheck.vok Fmt/FmtCheck.required_vos: Fmt/FmtCheck.v Fmt/Tokens.vos Gen/FmtCats.vos Fmt/Processor.vos Fmt/Bubble.vos Fmt/Stages.vos Fmt/Pipeline.vos Gen/FmtRules.vos
 Fmt/FmtRulesProofs.vo Fmt/FmtRulesProofs.glob Fmt/FmtRulesProofs.v.beautified Fmt/FmtRulesProofs.required_vo: Fmt/FmtRulesProofs.v Fmt/Tokens.vo Gen/FmtCats.vo Fmt/Processor.vo Fmt/ProcessorProofs.vo Fmt/Bubble.vo Fmt/BubbleProofs.vo Gen/FmtRules.vo
 Fmt/FmtRulesProofs.vio: Fmt/FmtRulesProofs.v Fmt/Tokens.vio Gen/FmtCats.vio Fmt/Processor.vio Fmt/ProcessorProofs.vio Fmt/Bubble.vio Fmt/BubbleProofs.vio Gen/FmtRules.vio
 Fmt/FmtRulesProofs.vos Fmt/FmtRulesProofs.vok Fmt/FmtRulesProofs.required_vos: Fmt/FmtRulesProofs.v Fmt/Tokens.vos Gen/FmtCats.vos Fmt/Processor.vos Fmt/ProcessorProofs.vos Fmt/Bubble.vos Fmt/BubbleProofs.vos Gen/FmtRules.vos
@@ -235,15 +235,18 @@ Fmt/Processor.vos Fmt/Processor.vok Fmt/Processor.required_vos: Fmt/Processor.v 
 Fmt/ProcessorProofs.vo Fmt/ProcessorProofs.glob Fmt/ProcessorProofs.v.beautified Fmt/ProcessorProofs.required_vo: Fmt/ProcessorProofs.v Fmt/Tokens.vo Gen/FmtCats.vo Fmt/Processor.vo
 Fmt/ProcessorProofs.vio: Fmt/ProcessorProofs.v Fmt/Tokens.vio Gen/FmtCats.vio Fmt/Processor.vio
 Fmt/ProcessorProofs.vos Fmt/ProcessorProofs.vok Fmt/ProcessorProofs.required_vos: Fmt/ProcessorProofs.v Fmt/Tokens.vos Gen/FmtCats.vos Fmt/Processor.vos
-Fmt/Stages.vo Fmt/Stages.glob Fmt/Stages.v.beautified Fmt/Stages.required_vo: Fmt/Stages.v Fmt/Tokens.vo Gen/FmtCats.vo Fmt/Processor.vo
-Fmt/Stages.vio: Fmt/Stages.v Fmt/Tokens.vio Gen/FmtCats.vio Fmt/Processor.vio
-Fmt/Stages.vos Fmt/Stages.vok Fmt/Stages.required_vos: Fmt/Stages.v Fmt/Tokens.vos Gen/FmtCats.vos Fmt/Processor.vos
-Fmt/StagesProofs.vo Fmt/StagesProofs.glob Fmt/StagesProofs.v.beautified Fmt/StagesProofs.required_vo: Fmt/StagesProofs.v Fmt/Tokens.vo Gen/FmtCats.vo Fmt/Processor.vo Fmt/ProcessorProofs.vo Fmt/Stages.vo
-Fmt/StagesProofs.vio: Fmt/StagesProofs.v Fmt/Tokens.vio Gen/FmtCats.vio Fmt/Processor.vio Fmt/ProcessorProofs.vio Fmt/Stages.vio
-Fmt/StagesProofs.vos Fmt/StagesProofs.vok Fmt/StagesProofs.required_vos: Fmt/StagesProofs.v Fmt/Tokens.vos Gen/FmtCats.vos Fmt/Processor.vos Fmt/ProcessorProofs.vos Fmt/Stages.vos
+Fmt/Stages.vo Fmt/Stages.glob Fmt/Stages.v.beautified Fmt/Stages.required_vo: Fmt/Stages.v Fmt/Tokens.vo Gen/FmtCats.vo Gen/FmtComments.vo Fmt/Processor.vo
+Fmt/Stages.vio: Fmt/Stages.v Fmt/Tokens.vio Gen/FmtCats.vio Gen/FmtComments.vio Fmt/Processor.vio
+Fmt/Stages.vos Fmt/Stages.vok Fmt/Stages.required_vos: Fmt/Stages.v Fmt/Tokens.vos Gen/FmtCats.vos Gen/FmtComments.vos Fmt/Processor.vos
+Fmt/StagesProofs.vo Fmt/StagesProofs.glob Fmt/StagesProofs.v.beautified Fmt/StagesProofs.required_vo: Fmt/StagesProofs.v Fmt/Tokens.vo Gen/FmtCats.vo Gen/FmtComments.vo Fmt/Processor.vo Fmt/ProcessorProofs.vo Fmt/Stages.vo
+Fmt/StagesProofs.vio: Fmt/StagesProofs.v Fmt/Tokens.vio Gen/FmtCats.vio Gen/FmtComments.vio Fmt/Processor.vio Fmt/ProcessorProofs.vio Fmt/Stages.vio
+Fmt/StagesProofs.vos Fmt/StagesProofs.vok Fmt/StagesProofs.required_vos: Fmt/StagesProofs.v Fmt/Tokens.vos Gen/FmtCats.vos Gen/FmtComments.vos Fmt/Processor.vos Fmt/ProcessorProofs.vos Fmt/Stages.vos
 Fmt/Tokens.vo Fmt/Tokens.glob Fmt/Tokens.v.beautified Fmt/Tokens.required_vo: Fmt/Tokens.v 
 Fmt/Tokens.vio: Fmt/Tokens.v 
 Fmt/Tokens.vos Fmt/Tokens.vok Fmt/Tokens.required_vos: Fmt/Tokens.v 
+Fmt/YrFmtProofs.vo Fmt/YrFmtProofs.glob Fmt/YrFmtProofs.v.beautified Fmt/YrFmtProofs.required_vo: Fmt/YrFmtProofs.v Fmt/Tokens.vo Gen/FmtRules.vo Fmt/FmtCheck.vo
+Fmt/YrFmtProofs.vio: Fmt/YrFmtProofs.v Fmt/Tokens.vio Gen/FmtRules.vio Fmt/FmtCheck.vio
+Fmt/YrFmtProofs.vos Fmt/YrFmtProofs.vok Fmt/YrFmtProofs.required_vos: Fmt/YrFmtProofs.v Fmt/Tokens.vos Gen/FmtRules.vos Fmt/FmtCheck.vos
 Gen/AstBuilderArms.vo Gen/AstBuilderArms.glob Gen/AstBuilderArms.v.beautified Gen/AstBuilderArms.required_vo: Gen/AstBuilderArms.v 
 Gen/AstBuilderArms.vio: Gen/AstBuilderArms.v 
 Gen/AstBuilderArms.vos Gen/AstBuilderArms.vok Gen/AstBuilderArms.required_vos: Gen/AstBuilderArms.v 
@@ -277,6 +280,9 @@ Gen/FixApply.vos Gen/FixApply.vok Gen/FixApply.required_vos: Gen/FixApply.v
 Gen/FmtCats.vo Gen/FmtCats.glob Gen/FmtCats.v.beautified Gen/FmtCats.required_vo: Gen/FmtCats.v Fmt/Tokens.vo
 Gen/FmtCats.vio: Gen/FmtCats.v Fmt/Tokens.vio
 Gen/FmtCats.vos Gen/FmtCats.vok Gen/FmtCats.required_vos: Gen/FmtCats.v Fmt/Tokens.vos
+Gen/FmtComments.vo Gen/FmtComments.glob Gen/FmtComments.v.beautified Gen/FmtComments.required_vo: Gen/FmtComments.v 
+Gen/FmtComments.vio: Gen/FmtComments.v 
+Gen/FmtComments.vos Gen/FmtComments.vok Gen/FmtComments.required_vos: Gen/FmtComments.v 
 Gen/FmtRules.vo Gen/FmtRules.glob Gen/FmtRules.v.beautified Gen/FmtRules.required_vo: Gen/FmtRules.v Fmt/Tokens.vo Gen/FmtCats.vo Fmt/Processor.vo Fmt/Bubble.vo Fmt/Pipeline.vo
 Gen/FmtRules.vio: Gen/FmtRules.v Fmt/Tokens.vio Gen/FmtCats.vio Fmt/Processor.vio Fmt/Bubble.vio Fmt/Pipeline.vio
 Gen/FmtRules.vos Gen/FmtRules.vok Gen/FmtRules.required_vos: Gen/FmtRules.v Fmt/Tokens.vos Gen/FmtCats.vos Fmt/Processor.vos Fmt/Bubble.vos Fmt/Pipeline.vos
@@ -304,6 +310,9 @@ Gen/PatternIdentity.vos Gen/PatternIdentity.vok Gen/PatternIdentity.required_vos
 Gen/ProtoSchema.vo Gen/ProtoSchema.glob Gen/ProtoSchema.v.beautified Gen/ProtoSchema.required_vo: Gen/ProtoSchema.v Types/StructModel.vo
 Gen/ProtoSchema.vio: Gen/ProtoSchema.v Types/StructModel.vio
 Gen/ProtoSchema.vos Gen/ProtoSchema.vok Gen/ProtoSchema.required_vos: Gen/ProtoSchema.v Types/StructModel.vos
+Gen/RulesTyGen.vo Gen/RulesTyGen.glob Gen/RulesTyGen.v.beautified Gen/RulesTyGen.required_vo: Gen/RulesTyGen.v Codec/Reader.vo Codec/Varint.vo Codec/Universe.vo
+Gen/RulesTyGen.vio: Gen/RulesTyGen.v Codec/Reader.vio Codec/Varint.vio Codec/Universe.vio
+Gen/RulesTyGen.vos Gen/RulesTyGen.vok Gen/RulesTyGen.required_vos: Gen/RulesTyGen.v Codec/Reader.vos Codec/Varint.vos Codec/Universe.vos
 Gen/ScanState.vo Gen/ScanState.glob Gen/ScanState.v.beautified Gen/ScanState.required_vo: Gen/ScanState.v 
 Gen/ScanState.vio: Gen/ScanState.v 
 Gen/ScanState.vos Gen/ScanState.vok Gen/ScanState.required_vos: Gen/ScanState.v 
@@ -427,6 +436,12 @@ Pat/Blocks.vos Pat/Blocks.vok Pat/Blocks.required_vos: Pat/Blocks.v Gen/ScanStat
 Pat/BlocksCheck.vo Pat/BlocksCheck.glob Pat/BlocksCheck.v.beautified Pat/BlocksCheck.required_vo: Pat/BlocksCheck.v Pat/Blocks.vo Gen/ScanState.vo Scanner/State.vo
 Pat/BlocksCheck.vio: Pat/BlocksCheck.v Pat/Blocks.vio Gen/ScanState.vio Scanner/State.vio
 Pat/BlocksCheck.vos Pat/BlocksCheck.vok Pat/BlocksCheck.required_vos: Pat/BlocksCheck.v Pat/Blocks.vos Gen/ScanState.vos Scanner/State.vos
+Pat/BlocksPipeline.vo Pat/BlocksPipeline.glob Pat/BlocksPipeline.v.beautified Pat/BlocksPipeline.required_vo: Pat/BlocksPipeline.v Pat/Syntax.vo Pat/MatchList.vo Pat/Atoms.vo Pat/Pipeline.vo Pat/Blocks.vo
+Pat/BlocksPipeline.vio: Pat/BlocksPipeline.v Pat/Syntax.vio Pat/MatchList.vio Pat/Atoms.vio Pat/Pipeline.vio Pat/Blocks.vio
+Pat/BlocksPipeline.vos Pat/BlocksPipeline.vok Pat/BlocksPipeline.required_vos: Pat/BlocksPipeline.v Pat/Syntax.vos Pat/MatchList.vos Pat/Atoms.vos Pat/Pipeline.vos Pat/Blocks.vos
+Pat/BlocksPipelineProofs.vo Pat/BlocksPipelineProofs.glob Pat/BlocksPipelineProofs.v.beautified Pat/BlocksPipelineProofs.required_vo: Pat/BlocksPipelineProofs.v Pat/Syntax.vo Pat/MatchList.vo Pat/Atoms.vo Pat/Pipeline.vo Pat/Blocks.vo Pat/BlocksProofs.vo Pat/BlocksPipeline.vo
+Pat/BlocksPipelineProofs.vio: Pat/BlocksPipelineProofs.v Pat/Syntax.vio Pat/MatchList.vio Pat/Atoms.vio Pat/Pipeline.vio Pat/Blocks.vio Pat/BlocksProofs.vio Pat/BlocksPipeline.vio
+Pat/BlocksPipelineProofs.vos Pat/BlocksPipelineProofs.vok Pat/BlocksPipelineProofs.required_vos: Pat/BlocksPipelineProofs.v Pat/Syntax.vos Pat/MatchList.vos Pat/Atoms.vos Pat/Pipeline.vos Pat/Blocks.vos Pat/BlocksProofs.vos Pat/BlocksPipeline.vos
 Pat/BlocksProofs.vo Pat/BlocksProofs.glob Pat/BlocksProofs.v.beautified Pat/BlocksProofs.required_vo: Pat/BlocksProofs.v Gen/ScanState.vo Pat/Blocks.vo
 Pat/BlocksProofs.vio: Pat/BlocksProofs.v Gen/ScanState.vio Pat/Blocks.vio
 Pat/BlocksProofs.vos Pat/BlocksProofs.vok Pat/BlocksProofs.required_vos: Pat/BlocksProofs.v Gen/ScanState.vos Pat/Blocks.vos
@@ -442,9 +457,12 @@ Pat/Chain.vos Pat/Chain.vok Pat/Chain.required_vos: Pat/Chain.v Gen/PatConsts.vo
 Pat/ChainProofs.vo Pat/ChainProofs.glob Pat/ChainProofs.v.beautified Pat/ChainProofs.required_vo: Pat/ChainProofs.v Gen/PatConsts.vo Pat/Syntax.vo Pat/Sem.vo Pat/Matcher.vo Pat/MatcherProofs.vo Pat/Chain.vo
 Pat/ChainProofs.vio: Pat/ChainProofs.v Gen/PatConsts.vio Pat/Syntax.vio Pat/Sem.vio Pat/Matcher.vio Pat/MatcherProofs.vio Pat/Chain.vio
 Pat/ChainProofs.vos Pat/ChainProofs.vok Pat/ChainProofs.required_vos: Pat/ChainProofs.v Gen/PatConsts.vos Pat/Syntax.vos Pat/Sem.vos Pat/Matcher.vos Pat/MatcherProofs.vos Pat/Chain.vos
-Pat/ChainRun.vo Pat/ChainRun.glob Pat/ChainRun.v.beautified Pat/ChainRun.required_vo: Pat/ChainRun.v Pat/Syntax.vo Pat/Sem.vo Pat/Modifiers.vo Pat/MatchList.vo Pat/Atoms.vo Pat/Pipeline.vo
-Pat/ChainRun.vio: Pat/ChainRun.v Pat/Syntax.vio Pat/Sem.vio Pat/Modifiers.vio Pat/MatchList.vio Pat/Atoms.vio Pat/Pipeline.vio
-Pat/ChainRun.vos Pat/ChainRun.vok Pat/ChainRun.required_vos: Pat/ChainRun.v Pat/Syntax.vos Pat/Sem.vos Pat/Modifiers.vos Pat/MatchList.vos Pat/Atoms.vos Pat/Pipeline.vos
+Pat/ChainRun.vo Pat/ChainRun.glob Pat/ChainRun.v.beautified Pat/ChainRun.required_vo: Pat/ChainRun.v Pat/Syntax.vo Pat/Sem.vo Pat/Matcher.vo Pat/Modifiers.vo Pat/MatchList.vo Pat/Atoms.vo Pat/Pipeline.vo Pat/Chain.vo
+Pat/ChainRun.vio: Pat/ChainRun.v Pat/Syntax.vio Pat/Sem.vio Pat/Matcher.vio Pat/Modifiers.vio Pat/MatchList.vio Pat/Atoms.vio Pat/Pipeline.vio Pat/Chain.vio
+Pat/ChainRun.vos Pat/ChainRun.vok Pat/ChainRun.required_vos: Pat/ChainRun.v Pat/Syntax.vos Pat/Sem.vos Pat/Matcher.vos Pat/Modifiers.vos Pat/MatchList.vos Pat/Atoms.vos Pat/Pipeline.vos Pat/Chain.vos
+Pat/ChainRunProofs.vo Pat/ChainRunProofs.glob Pat/ChainRunProofs.v.beautified Pat/ChainRunProofs.required_vo: Pat/ChainRunProofs.v Gen/PatConsts.vo Pat/Syntax.vo Pat/Sem.vo Pat/Matcher.vo Pat/MatcherProofs.vo Pat/Modifiers.vo Pat/MatchList.vo Pat/MatchListProofs.vo Pat/Atoms.vo Pat/Pipeline.vo Pat/PipelineProofs.vo Pat/Chain.vo Pat/ChainProofs.vo Pat/ChainRun.vo
+Pat/ChainRunProofs.vio: Pat/ChainRunProofs.v Gen/PatConsts.vio Pat/Syntax.vio Pat/Sem.vio Pat/Matcher.vio Pat/MatcherProofs.vio Pat/Modifiers.vio Pat/MatchList.vio Pat/MatchListProofs.vio Pat/Atoms.vio Pat/Pipeline.vio Pat/PipelineProofs.vio Pat/Chain.vio Pat/ChainProofs.vio Pat/ChainRun.vio
+Pat/ChainRunProofs.vos Pat/ChainRunProofs.vok Pat/ChainRunProofs.required_vos: Pat/ChainRunProofs.v Gen/PatConsts.vos Pat/Syntax.vos Pat/Sem.vos Pat/Matcher.vos Pat/MatcherProofs.vos Pat/Modifiers.vos Pat/MatchList.vos Pat/MatchListProofs.vos Pat/Atoms.vos Pat/Pipeline.vos Pat/PipelineProofs.vos Pat/Chain.vos Pat/ChainProofs.vos Pat/ChainRun.vos
 Pat/MatchList.vo Pat/MatchList.glob Pat/MatchList.v.beautified Pat/MatchList.required_vo: Pat/MatchList.v Gen/PatConsts.vo
 Pat/MatchList.vio: Pat/MatchList.v Gen/PatConsts.vio
 Pat/MatchList.vos Pat/MatchList.vok Pat/MatchList.required_vos: Pat/MatchList.v Gen/PatConsts.vos
